@@ -187,7 +187,11 @@ def run_property(prop, tier="quick", facts_path=None, write_evidence=True, repo=
         for pr in problems:
             ctx.fail("R00.extraction", "floor", pr)
         missing = [a for a in ANCHOR_FNS if not facts.has_fn(a)]
+        from . import paths as _paths
+        _paths.NOT_FOLLOWED.clear()
         mod.run(ctx)
+        for name in sorted(_paths.NOT_FOLLOWED):
+            ctx.fail("R00.extraction", "helper-not-followed|%s" % name, "the helper %s is nested more than three new helpers deep and was not followed by the path analysis: its effect on the rules above is unknown (fail closed)" % name)
         positive_controls(ctx, mod, prop, tier)
         extra_release = None
         extra = {}
